@@ -3,6 +3,7 @@
   examples and the audit live here; helper lemmas are in `ALV.Lemmas.C08`.
 -/
 import ALV.Lemmas.C08
+import ALV.Lemmas.C08Hist
 import ALV.Common.Audit
 
 namespace ALV.Props.C08
@@ -70,10 +71,170 @@ theorem zero_pad_length (left right : Nat) (zero : α) (xs : List α) :
     (zeroPad left right zero xs).length = left + xs.length + right := by
   simp [zeroPad]; omega
 
+
+/-! ## Histories: prefixes and failing / observing sources, caller edits, live sources -/
+
+/-- **C08.3 (prefix / failure statement)**: for EVERY prefix `pre` of the input, the blocks the
+generator has handed out after consuming `pre` (the loop only, without the end-of-input clause) are
+exactly the complete blocks of that prefix.  So a source that fails after delivering the items
+`pre` has produced every complete block of `pre`, and no padded block. -/
+theorem blocks_prefix (size hop : Nat) (hs : 0 < size) (hh : 0 < hop) (pre : List α) :
+    (bloop size hop (⟨[], 0⟩ : BState α) pre).1 = fullBlocks size hop pre := by
+  have := bloop_full size hop hs hh pre ⟨[], 0⟩ (binv_init size hs)
+  simpa [virt, lastN] using this
+
+/-- the blocks already handed out never change: the output for `pre ++ suf` starts with the
+complete blocks of `pre`, whatever follows (more items, the end, a failure) -/
+theorem blocks_incremental (size hop : Nat) (hs : 0 < size) (hh : 0 < hop) (pad : α)
+    (pre suf : List α) :
+    fullBlocks size hop pre <+: blocks size hop pad (pre ++ suf) := by
+  unfold blocks
+  simp only [bloop_append, blocks_prefix size hop hs hh pre, List.append_assoc]
+  exact List.prefix_append _ _
+
+/-- **C08.4 (no read-ahead)**: block `k` is handed out when exactly `k*hop + size` items have been
+pulled from the source. -/
+theorem reads_closed (size hop : Nat) (hs : 0 < size) (hh : 0 < hop) (xs : List α) :
+    bloopReads size hop (⟨[], 0⟩ : BState α) 0 xs = readsClosed size hop xs.length := by
+  rw [bloopReads_closed size hop hs hh xs ⟨[], 0⟩ 0 (by simpa using hs)]
+  unfold readsClosed
+  simp only [Int.sub_zero, Int.toNat_natCast, Nat.zero_add]
+  apply List.map_congr_left
+  intro k _
+  omega
+
+/-- events of the loop in closed form: (items pulled, block) for every complete block -/
+theorem events_closed (size hop : Nat) (hs : 0 < size) (hh : 0 < hop) (xs : List α) :
+    (bloopEv size hop (⟨[], 0⟩ : BState α) 0 xs).1 =
+      (List.range (nFull size hop xs.length)).map
+        fun k => (k * hop + size, (xs.drop (k * hop)).take size) := by
+  have hz := List.zip_unzip (bloopEv size hop (⟨[], 0⟩ : BState α) 0 xs).1
+  rw [List.unzip_eq_map] at hz
+  rw [← hz, bloopEv_fst, (bloopEv_snd size hop xs ⟨[], 0⟩ 0).1, reads_closed size hop hs hh,
+    blocks_prefix size hop hs hh]
+  unfold readsClosed fullBlocks
+  rw [List.zip_map']
+
+/-- **C08.5a**: a source that delivers `xs` and then FAILS: every complete block of `xs` has been
+handed out, block `k` after exactly `k*hop+size` pulled items, no padded block, and the exception
+comes out. -/
+theorem trace_fail (size hop : Nat) (hs : 0 < size) (hh : 0 < hop) (pad : α) (xs : List α) :
+    blocksTrace size hop pad xs .fail =
+      ⟨(List.range (nFull size hop xs.length)).map
+        fun k => (k * hop + size, (xs.drop (k * hop)).take size), true⟩ := by
+  simp only [blocksTrace, events_closed size hop hs hh xs]
+
+/-- **C08.5b**: a source that delivers `xs` and then ENDS: the same events, then the padded final
+block (iff it holds more than `max(size-hop,0)` real items) once all `|xs|` items were pulled. -/
+theorem trace_stop (size hop : Nat) (hs : 0 < size) (hh : 0 < hop) (pad : α) (xs : List α) :
+    blocksTrace size hop pad xs .stop =
+      ⟨((List.range (nFull size hop xs.length)).map
+          fun k => (k * hop + size, (xs.drop (k * hop)).take size)) ++
+        (tailBlock size hop pad xs).map (fun b => (xs.length, b)), false⟩ := by
+  have h1 := blocks_eq_closed size hop hs hh pad xs
+  have h2 := blocks_prefix size hop hs hh xs
+  unfold blocks at h1
+  simp only at h1
+  rw [h2] at h1
+  have h3 : btail size hop pad (bloop size hop (⟨[], 0⟩ : BState α) xs).2 = tailBlock size hop pad xs :=
+    List.append_cancel_left (h1.trans (rfl : blocksClosed size hop pad xs =
+      fullBlocks size hop xs ++ tailBlock size hop pad xs))
+  simp only [blocksTrace, events_closed size hop hs hh xs, (bloopEv_snd size hop xs ⟨[], 0⟩ 0).2, h3]
+
+/-- the blocks of a trace that ended normally are the blocks of C08.1 -/
+theorem trace_stop_blocks (size hop : Nat) (pad : α) (xs : List α) :
+    (blocksTrace size hop pad xs .stop).events.map Prod.snd = blocks size hop pad xs := by
+  simp only [blocksTrace, blocks, List.map_append, (bloopEv_snd size hop xs ⟨[], 0⟩ 0).1,
+    (bloopEv_snd size hop xs ⟨[], 0⟩ 0).2, List.map_map]
+  congr 1
+  simp [Function.comp_def]
+
+/-- **C08.6 (the yielded container is the generator's deque)**: with a caller that changes the
+contents of the yielded containers (keeping their length), the blocks are those of `mutSpec`:
+each block is the first `size` items of the virtual input, and the next virtual input is what the
+caller LEFT of these items followed by the rest of the input, minus `hop` items. -/
+theorem blocks_mut_eq_spec (size hop : Nat) (hs : 0 < size) (hh : 0 < hop) (pad : α)
+    (edit : Nat → LenPres α) (xs : List α) :
+    blocksMut size hop pad (fun k => (edit k).1) xs = mutSpec size hop pad edit 0 xs := by
+  have := bloopMut_spec size hop hs hh pad edit xs ⟨[], 0⟩ 0 (binv_init size hs)
+  simpa [blocksMut, virt, lastN] using this
+
+/-- a caller that leaves the containers alone gets the blocks of C08.1 -/
+theorem blocks_mut_id (size hop : Nat) (pad : α) (xs : List α) :
+    blocksMut size hop pad (fun _ b => b) xs = blocks size hop pad xs := by
+  simp only [blocksMut, blocks, bloopMut_id]
+
+/-- when `hop ≥ size` nothing of a previous container shows in the next block, whatever the caller
+did to it -/
+theorem blocks_mut_hop_ge_size (size hop : Nat) (hs : 0 < size) (hge : size ≤ hop) (pad : α)
+    (edit : Nat → LenPres α) (xs : List α) :
+    blocksMut size hop pad (fun k => (edit k).1) xs = blocks size hop pad xs := by
+  have hh : 0 < hop := by omega
+  rw [blocks_mut_eq_spec size hop hs hh, blocks_eq_spec size hop hs hh]
+  exact mutSpec_hop_ge size hop hs hh hge pad edit xs.length xs 0 rfl
+
+/-- the docstring's note, wherever it applies in the run: when `hop ≤ size` and a further complete
+block follows the block `b = v.take size`, that next block is what the caller left of `b` from
+position `hop` on, followed by the next `hop` items of the input. -/
+theorem mut_next_block (size hop : Nat) (hs : 0 < size) (hh : 0 < hop) (hle : hop ≤ size) (pad : α)
+    (edit : Nat → LenPres α) (k : Nat) (v : List α) (hv : size + hop ≤ v.length) :
+    (mutSpec size hop pad edit k v)[1]? =
+      some (((edit k).1 (v.take size)).drop hop ++ (v.drop size).take hop) := by
+  have he : ((edit k).1 (v.take size)).length = size := by
+    rw [(edit k).2, List.length_take]; omega
+  rw [mutSpec_step size hop hs hh pad edit k v (by omega),
+    mutSpec_step size hop hs hh pad edit (k + 1) _ (by
+      simp only [List.length_drop, List.length_append, he]; omega)]
+  simp only [List.getElem?_cons_succ, List.getElem?_cons_zero, Option.some.injEq]
+  rw [List.drop_append_of_le_length (by omega), List.take_append]
+  simp only [List.length_drop, he]
+  rw [List.take_of_length_le (by simp only [List.length_drop, he]; omega)]
+  congr 2
+  omega
+
+/-- **C08.7 (live source, "same through Stream.blocks" for sources that follow the caller)**: when
+the item pulled as number `i` depends on how many blocks had been handed out at that moment, the
+blocks are those of the fixed sequence `i ↦ item i (nFull size hop i)`: nothing is read ahead. -/
+theorem blocks_live (size hop : Nat) (hs : 0 < size) (hh : 0 < hop) (pad : α)
+    (item : Nat → Nat → α) (n : Nat) :
+    blocksLive size hop pad item n =
+      blocks size hop pad ((List.range n).map fun i => item i (nFull size hop i)) := by
+  have inv : LInv size hop (⟨[], 0⟩ : BState α) 0 0 :=
+    ⟨by simp, by simpa using hs, fun _ => by simp, fun h => by omega⟩
+  simp only [blocksLive, blocks, bloopLive_eq size hop hs hh item n _ 0 0 inv, List.range_eq_range']
+
+/-- **C08.2b**: `zero_pad` over a source that delivers `xs` then ends / fails: `left` pads before
+anything is pulled, item `j` when `j+1` items were pulled, the right pads only after a normal end. -/
+theorem zero_pad_trace (left right : Nat) (zero : α) (xs : List α) :
+    (zeroPadTrace left right zero xs .stop).1.map Prod.snd = zeroPad left right zero xs ∧
+    (zeroPadTrace left right zero xs .stop).2 = false ∧
+    (zeroPadTrace left right zero xs .fail).1.map Prod.snd = List.replicate left zero ++ xs ∧
+    (zeroPadTrace left right zero xs .fail).2 = true := by
+  have hm : List.map Prod.snd (List.map (fun p : Nat × α => (p.1 + 1, p.2))
+      ((List.range xs.length).zip xs)) = xs := by
+    rw [List.map_map]
+    have : (Prod.snd ∘ fun p : Nat × α => (p.1 + 1, p.2)) = Prod.snd := rfl
+    rw [this, List.map_snd_zip]
+    simp
+  refine ⟨?_, rfl, ?_, rfl⟩
+  · simp only [zeroPadTrace, zeroPad, List.map_append, hm, List.map_map]
+    simp [Function.comp_def]
+  · simp only [zeroPadTrace, List.map_append, hm, List.map_map]
+    simp [Function.comp_def]
+
 /-- non-vacuity: hypotheses satisfiable, statement about a non-trivial input -/
 example : blocks 4 2 (0:Nat) [100,101,102,103,104] = [[100,101,102,103],[102,103,104,0]] := by decide
 example : blocks 2 3 (9:Nat) [0,1,2,3,4] = [[0,1],[3,4]] := by decide
 example : nFull 4 2 5 = 1 ∧ (0:Nat) < nFull 4 2 5 := by decide
+-- a source failing after 5 items: one complete block, after 4 pulled items, no padded block
+example : (blocksTrace 4 2 (0:Nat) [100,101,102,103,104] .fail).events = [(4, [100,101,102,103])] := by decide
+example : (blocksTrace 4 2 (0:Nat) [100,101,102,103,104] .stop).events =
+    [(4, [100,101,102,103]), (5, [102,103,104,0])] := by decide
+-- the caller overwrites item 3 of block 0 with 7: it shows as item 1 of block 1 (hop = 2 < size = 4)
+example : blocksMut 4 2 (0:Nat) (fun k b => if k = 0 then b.set 3 7 else b) [100,101,102,103,104,105] =
+    [[100,101,102,103],[102,7,104,105]] := by decide
+-- live source delivering the number of blocks handed out so far
+example : blocksLive 2 1 (9:Nat) (fun _ ph => ph) 4 = [[0,0],[0,1],[1,2]] := by decide
 
 end ALV.Props.C08
 
